@@ -234,6 +234,44 @@ def handleF (F : FieldImpl) (d : Nat) : List String → String
         | some cells =>
           s!"{rows} {rm.elementsPerRow / d} {summary cells d} {summary (rm.data.map F.asInt) 1}"
     | _, _, _, _, _, _ => "bad-op"
+  | ["airdom", n, cols, seed, lde, deg, w] =>
+    match n.toNat?, cols.toNat?, seed.toNat?, lde.toNat?, deg.toNat?, w.toNat? with
+    | some n, some cols, some seed, some lde, some deg, some w =>
+      if tooBig n lde (cols * d) then "-" else
+      let B := baseOps F
+      -- TransitionConstraintDegree::new, ProofOptions::new, TraceInfo::new, AirContext::new, StarkDomain::new
+      match starkDomainNew B n lde deg (F.new F.generator) with
+      | none => "panic"
+      | some dom =>
+        -- ColMatrix::new: at least one column
+        if cols = 0 then "panic" else
+        match dom.traceToLdeBlowup, dom.traceToCeBlowup with
+        | some t2l, some t2c =>
+          let columns : Array (Array (Array Nat)) := (List.range cols).toArray.map fun c =>
+            toElems F d (genCoords F ((seed + c) % 18446744073709551616) n d .rand)
+          -- evaluate_columns_over: trace twiddles, offset and trace_to_lde_blowup of the domain
+          match columns.mapM (fun p => evaluatePolyWithOffset (elemOps F) B maxLoop p dom.traceTwiddles dom.offset t2l) with
+          | none => "panic"
+          | some lde_cols =>
+            let baseCols : Array (Array Nat) := (List.range (cols * d)).toArray.map fun bc =>
+              let coords := genCoords F ((seed + bc / d) % 18446744073709551616) n d .rand
+              (List.range n).toArray.map fun r => F.new (coords.getD (r * d + bc % d) 0)
+            match evaluatePolysOverDomain (elemOps F) B (F.new 0) maxLoop w baseCols n dom with
+            | none => "panic"
+            | some rm =>
+              let rows := rm.data.size / rm.rowWidth
+              let cells : Option (Array Nat) := (List.range rows).foldl (fun acc r =>
+                match acc, rm.row r with
+                | some acc, some row => some (acc ++ row.map F.asInt)
+                | _, _ => none) (some (Array.mkEmpty (rows * cols * d)))
+              match cells with
+              | none => "panic"
+              | some cells =>
+                let flatL := lde_cols.foldl (fun acc c => acc ++ coordsOf F c) #[]
+                let acc := s!"{dom.traceLength} {dom.ldeDomainSize} {dom.ceDomainSize} {t2l} {t2c} {dom.ceToLdeBlowup} {F.asInt dom.offset} {summary (dom.traceTwiddles.map F.asInt) 1}"
+                s!"{acc} | {n * t2l} {cols} {summary flatL d} | {rows} {rm.elementsPerRow / d} {summary cells d} {summary (rm.data.map F.asInt) 1}"
+        | _, _ => "panic"
+    | _, _, _, _, _, _ => "bad-op"
   | ["colmat", n, cols, seed, blowup, off] =>
     match n.toNat?, cols.toNat?, seed.toNat?, blowup.toNat?, parseOff F off with
     | some n, some cols, some seed, some blowup, some off =>
